@@ -247,6 +247,24 @@ func (g *Gen) compTokens(names []int, withVals bool, stale float64, omitRel floa
 	return strings.Join(parts, " ")
 }
 
+// enabled together with the D18 repair (see DESIGN.md)
+const dupRelChance = 0.0
+
+// dupRel: occasionally an additional relation target for a relation component already listed
+// (`rN>target`; unsafe path only). The API accepts it: the last target wins, see DESIGN.md N2.
+func (g *Gen) dupRel(names []int, path string) string {
+	if path != "u" || !g.chance(dupRelChance) {
+		return ""
+	}
+	for _, n := range names {
+		if g.isRel(n) {
+			g.RelTargets["duplicate"]++
+			return fmt.Sprintf(" r%d>%s", n, g.pickTarget(0.02))
+		}
+	}
+	return ""
+}
+
 func (g *Gen) subset(names []int, min, max int) []int {
 	if len(names) == 0 {
 		return nil
@@ -568,7 +586,7 @@ func (g *Gen) opNew() bool {
 	}
 	cs = g.tupleOrder(cs)
 	p := g.path(cs, true)
-	g.emit(fmt.Sprintf("new e%d %s %s", l, p, g.compTokens(cs, true, 0.02, 0.03)))
+	g.emit(fmt.Sprintf("new e%d %s %s%s", l, p, g.compTokens(cs, true, 0.02, 0.03), g.dupRel(cs, p)))
 	return true
 }
 
@@ -598,7 +616,7 @@ func (g *Gen) opAdd() bool {
 	if p == "" {
 		p = "u"
 	}
-	g.emit(strings.TrimSpace(fmt.Sprintf("add %s %s %s", el, p, g.compTokens(cs, true, 0.02, 0.03))))
+	g.emit(strings.TrimSpace(fmt.Sprintf("add %s %s %s%s", el, p, g.compTokens(cs, true, 0.02, 0.03), g.dupRel(cs, p))))
 	return true
 }
 
@@ -761,7 +779,7 @@ func (g *Gen) opSetRel() bool {
 		}
 		parts = append(parts, fmt.Sprintf("c%d>%s", n, tgt))
 	}
-	g.emit(fmt.Sprintf("setrel %s %s %s%s", el, p, strings.Join(parts, " "), mapperOpt))
+	g.emit(fmt.Sprintf("setrel %s %s %s%s%s", el, p, strings.Join(parts, " "), g.dupRel(cs, p), mapperOpt))
 	return true
 }
 
